@@ -69,11 +69,11 @@ var readProbes = map[string][][]string{
 }
 var writeProbes = map[string][][]string{
 	"string": {{"APPEND", "K", "x"}, {"INCR", "K"}, {"INCRBY", "K", "5"}, {"DECR", "K"}, {"SETNX", "K", "n"}, {"SETRANGE", "K", "1", "z"}, {"INCRBYFLOAT", "K", "1"}, {"SET", "K", "w", "XX"}, {"SET", "K", "w", "NX"}, {"SET", "K", "w", "KEEPTTL"}, {"SET", "K", "w", "GET"}, {"RENAME", "K", "K2"}, {"PERSIST", "K"}, {"EXPIRE", "K", "100", "XX"}, {"DEL", "K"}},
-	"list":   {{"LPUSH", "K", "z"}, {"RPUSHX", "K", "z"}, {"LPOP", "K"}, {"LSET", "K", "0", "z"}, {"LREM", "K", "0", "a"}, {"LTRIM", "K", "0", "0"}, {"LMOVE", "K", "K2", "LEFT", "LEFT"}, {"RENAME", "K", "K2"}, {"PERSIST", "K"}},
-	"set":    {{"SADD", "K", "z"}, {"SREM", "K", "a"}, {"SPOP", "K"}, {"SMOVE", "K", "K2", "a"}, {"SUNIONSTORE", "K2", "K"}, {"SDIFFSTORE", "K2", "K"}, {"SINTERSTORE", "K2", "K"}, {"RENAME", "K", "K2"}, {"PERSIST", "K"}},
-	"hash":   {{"HSET", "K", "g", "2"}, {"HSETNX", "K", "f", "9"}, {"HINCRBY", "K", "f", "1"}, {"HDEL", "K", "f"}, {"HINCRBYFLOAT", "K", "f", "1"}, {"RENAME", "K", "K2"}, {"PERSIST", "K"}},
-	"zset":   {{"ZADD", "K", "3", "c"}, {"ZADD", "K", "XX", "5", "a"}, {"ZREM", "K", "a"}, {"RENAME", "K", "K2"}, {"PERSIST", "K"}},
-	"stream": {{"XADD", "K", "9-1", "g", "w"}, {"XADD", "K", "NOMKSTREAM", "9-2", "g", "w"}, {"RENAME", "K", "K2"}, {"PERSIST", "K"}},
+	"list":   {{"LPUSH", "K", "z"}, {"RPUSHX", "K", "z"}, {"LPOP", "K"}, {"LSET", "K", "0", "z"}, {"LREM", "K", "0", "a"}, {"LTRIM", "K", "0", "0"}, {"LMOVE", "K", "K2", "LEFT", "LEFT"}, {"RENAME", "K", "K2"}, {"PERSIST", "K"}, {"SET", "K", "w"}, {"SETNX", "K", "w"}, {"SADD", "K", "w"}, {"HSET", "K", "f", "w"}, {"INCR", "K"}},
+	"set":    {{"SADD", "K", "z"}, {"SREM", "K", "a"}, {"SPOP", "K"}, {"SMOVE", "K", "K2", "a"}, {"SUNIONSTORE", "K2", "K"}, {"SDIFFSTORE", "K2", "K"}, {"SINTERSTORE", "K2", "K"}, {"RENAME", "K", "K2"}, {"PERSIST", "K"}, {"SET", "K", "w"}, {"SETNX", "K", "w"}, {"LPUSH", "K", "w"}, {"HSET", "K", "f", "w"}, {"APPEND", "K", "w"}},
+	"hash":   {{"HSET", "K", "g", "2"}, {"HSETNX", "K", "f", "9"}, {"HINCRBY", "K", "f", "1"}, {"HDEL", "K", "f"}, {"HINCRBYFLOAT", "K", "f", "1"}, {"RENAME", "K", "K2"}, {"PERSIST", "K"}, {"SET", "K", "w"}, {"SETNX", "K", "w"}, {"LPUSH", "K", "w"}, {"SADD", "K", "w"}, {"INCR", "K"}},
+	"zset":   {{"ZADD", "K", "3", "c"}, {"ZADD", "K", "XX", "5", "a"}, {"ZREM", "K", "a"}, {"RENAME", "K", "K2"}, {"PERSIST", "K"}, {"SET", "K", "w"}, {"SETNX", "K", "w"}, {"LPUSH", "K", "w"}, {"SADD", "K", "w"}, {"HSET", "K", "f", "w"}},
+	"stream": {{"XADD", "K", "9-1", "g", "w"}, {"XADD", "K", "NOMKSTREAM", "9-2", "g", "w"}, {"RENAME", "K", "K2"}, {"PERSIST", "K"}, {"SET", "K", "w"}, {"SETNX", "K", "w"}, {"LPUSH", "K", "w"}, {"SADD", "K", "w"}, {"HSET", "K", "f", "w"}},
 }
 
 func subst(tpl []string, k string) kit.Cmd {
